@@ -5,11 +5,3 @@ import "istio.io/istio/pkg/security"
 func kinfo(name, ns, uid, sa string) security.KubernetesInfo {
 	return security.KubernetesInfo{PodName: name, PodNamespace: ns, PodUID: uid, PodServiceAccount: sa}
 }
-
-func genAuthn(seed uint64, n int, outp string)  {}
-func oracleAuthn(in, outp string)               {}
-
-type authnSUT struct{}
-
-func newAuthnSUT() *authnSUT             { return &authnSUT{} }
-func (s *authnSUT) apply(f []string) string { return "bad-op" }
